@@ -37,6 +37,7 @@ type docGen struct {
 	typed      bool // also steps whose kind comes from an explicit `type` key
 	scalarCfg  bool // plugin configs may be scalars (false, 0, "", ...)
 	scalarEnv  bool // env and matrix values may be any scalar kind, not only strings
+	afterSig   bool // the step generated last carries a signature record
 	plainNums  bool // floats always have a fractional part (an integral float cannot survive JSON as a float)
 }
 
@@ -84,6 +85,9 @@ func (g *docGen) anyValue(depth int) any {
 		}
 		return l
 	case 1, 2:
+		if g.pick(8) == 0 {
+			return orderedJSON{} // an EMPTY mapping as a nested value: not null, not absent - in either output format
+		}
 		return g.freeMap(depth+1, 1+g.pick(3))
 	default:
 		return g.scalar()
@@ -237,6 +241,9 @@ func (g *docGen) matrix() any {
 			var with any
 			if anon && g.pick(2) == 0 {
 				with = mval(false)
+				if g.pick(4) == 0 {
+					with = "" // the EMPTY value of the anonymous dimension (`matrix: ["", "-debug"]`) is a value like any other
+				}
 			} else {
 				wp := [][2]any{}
 				for _, d := range dims {
@@ -294,6 +301,26 @@ func (g *docGen) cache() any {
 }
 
 func (g *docGen) extras(pairs [][2]any, n int) [][2]any {
+	if g.afterSig || g.pick(12) == 0 {
+		// unknown keys NAMED like the fields of a typed record that stands elsewhere in the document (the signature record,
+		// the cache settings, the matrix): in this mapping they are ordinary keys. Right after a step that carries a
+		// signature they are there more often than not (whatever decoding that record left behind must not claim them).
+		names := []string{"value", "algorithm", "signed_fields", "paths", "setup", "adjustments", "with"}
+		if g.afterSig {
+			names = names[:3]
+		}
+		g.afterSig = false
+		g.rng.Shuffle(len(names), func(i, j int) { names[i], names[j] = names[j], names[i] })
+		for _, k := range names[:1+g.pick(2)] {
+			have := false
+			for _, q := range pairs {
+				have = have || q[0] == k
+			}
+			if !have {
+				pairs = append(pairs, [2]any{k, g.anyValue(1)})
+			}
+		}
+	}
 	for i := 0; i < n; i++ {
 		pairs = append(pairs, [2]any{g.str("key"), g.anyValue(0)})
 	}
@@ -355,6 +382,11 @@ func (g *docGen) commandStep() orderedJSON {
 		p = append(p, [][2]any{{"wait", nil}, {"waiter", "w"}, {"block", "b"}, {"trigger", "t"}, {"manual", nil}}[g.pick(5)])
 	}
 	g.rng.Shuffle(len(p), func(i, j int) { p[i], p[j] = p[j], p[i] })
+	for _, q := range p {
+		if q[0] == "signature" {
+			g.afterSig = true
+		}
+	}
 	return orderedJSON(p)
 }
 
